@@ -430,7 +430,8 @@ class Gen:
                 vs.append({'name': 'V%d' % i, 'discr': x, 'cfg': rng.choice([None, 'all', 'any'])})
             # more variants than values are legal only here; the extra ones are stripped
             if rng.random() < 0.7:
-                for j in range((1 << n) - k + 1):
+                # more variants than values only for small n (the list has 2^n + 1 entries)
+                for j in range((1 << n) - k + 1 if n <= 5 else 3):
                     vs.append({'name': 'X%d' % j, 'discr': discrs[0], 'cfg': 'any'})
             self.add({'kind': 'enum', 'name': self.name('E'), 'bits': n, 'exh': 'conditional', 'variants': vs}, 'F6')
         # literal spellings
